@@ -326,6 +326,40 @@ static std::string step(const Toks& t0)
 		v = *v + off;
 		return "ok";
 	}
+	if (op == "nest" && n == 3) {
+		// harness-only (deep-tree checks of the plugin's extra()): wrap root k into n more arrays: Var w; w << v; v = w;
+		int k = (int)num(t[1]), m = (int)num(t[2]);
+		if (k < 0 || k >= NS) return "bad-op";
+		for (int i = 0; i < m; i++) { Var w; w << *slot[k]; *slot[k] = w; }
+		return "ok";
+	}
+	if (op == "deep" && n == 3) {
+		// harness-only: the recursive operations on root k (known finding deep-recursion beyond the stack)
+		int k = (int)num(t[2]);
+		if (k < 0 || k >= NS) return "bad-op";
+		if (t[1] == "clone") { Var c = slot[k]->clone(); return c.is(Var::ARRAY) ? "ok" : "?"; }
+		if (t[1] == "eq") { Var c = slot[k]->clone(); return (c == *slot[k]) ? "1" : "0"; }
+		if (t[1] == "tostr") return str(slot[k]->toString().length());
+		return "bad-op";
+	}
+	if (op == "setkey" && n == 4) {
+		// const String& k = q.object().kv()[i].key; p = k;  -- operator=(const String&) with the name of a property of q
+		Path p = parsePath(t[1]), q = parsePath(t[2]);
+		if (!p.ok || !q.ok) return "bad-op";
+		std::string err;
+		SrcRef ref;
+		const Var* src = resolveConst(q, err, &ref);
+		if (!src) return err;
+		Tgt g = resolveMut(p, guard, &ref);
+		if (!g.err.empty()) return g.err;
+		src = resolveConst(q, err);   // the target path did not move it (guard above); look at it only now
+		if (!src) return "UB:source-lost";
+		int i = (int)num(t[3]);
+		if (!src->is(Var::OBJ) || i < 0 || i >= src->length()) return "badarg";
+		const String* key = &src->object().kv()[i].key; // the handle returned by object() is gone after this line
+		*g.v = *key;
+		return "ok";
+	}
 	if (op == "setcs" && n == 4) {
 		// p = *q + off: operator=(const char*) with a pointer into the string Var q (e.g. v = *v[0])
 		Path p = parsePath(t[1]), q = parsePath(t[2]);
